@@ -573,55 +573,118 @@ def run(prog, pid, clauses):
         out.append(ob("lexer-flags-written-are-reset-per-statement", not missing and bool(reset),
                       dict(reset=sorted(reset), written=sorted(written), not_reset={k: w for k, w in missing.items()}),
                       {view.methods["set_default_flags_in_lexer"].key}, pid))
-        # and the reset is executed before every statement parse: at every call site of parse_statement (or of a
-        # function that only forwards to it) a call of set_default_flags_in_lexer precedes it in the same block
-        def calls_in(block):
-            """[(index in block, callee)] for the self.<m>() calls of each statement of a block (nested blocks excluded)"""
-            res = []
-            for i, st in enumerate(block):
-                for n in ast.walk(st) if not isinstance(st, (ast.If, ast.For, ast.While, ast.Try, ast.With)) else ast.walk(getattr(st, "test", None) or getattr(st, "iter", None) or ast.Pass()):
-                    if isinstance(n, ast.Call) and attr_path(n.func) and attr_path(n.func)[0] == "self" and len(attr_path(n.func)) == 2:
-                        res.append((i, attr_path(n.func)[1]))
-            return res
+        # and the reset is executed before every statement parse.  Flow analysis over the structured bodies of the
+        # run path, inlining self.<method>() calls: the abstract state is FRESH (flags reset, nothing lexed since) or
+        # DIRTY; set_default_flags_in_lexer() makes it FRESH, parse_statement() REQUIRES FRESH and leaves DIRTY; branches
+        # join to DIRTY when either side is, loop bodies are analysed at their fixpoint; parse_data() starts DIRTY.
+        FRESH, DIRTY = "fresh", "dirty"
 
-        def blocks_of(fn_node):
-            out_blocks = [fn_node.body]
-            for n in ast.walk(fn_node):
-                for fld in ("body", "orelse", "finalbody"):
-                    b = getattr(n, fld, None)
-                    if isinstance(b, list) and b and n is not fn_node:
-                        out_blocks.append(b)
-                if isinstance(n, ast.Try):
-                    for h in n.handlers:
-                        out_blocks.append(h.body)
-            return out_blocks
+        def join(a, b):
+            if a is None:
+                return b
+            if b is None:
+                return a
+            return DIRTY if DIRTY in (a, b) else FRESH
         problems = []
         sites = {}
-        targets = ["parse_statement"]
-        seen_t = set()
-        while targets:
-            tgt = targets.pop()
-            if tgt in seen_t:
+        memo = {}
+
+        def self_calls(node):
+            res = [n for n in ast.walk(node) if isinstance(n, ast.Call) and attr_path(n.func) and len(attr_path(n.func)) == 2
+                   and attr_path(n.func)[0] == "self"]
+            res.sort(key=lambda n: (n.end_lineno, n.end_col_offset))    # evaluation order of nested calls: inner first
+            return res
+
+        def do_calls(node, st, m, stack):
+            for c in self_calls(node):
+                callee = attr_path(c.func)[1]
+                if callee == "set_default_flags_in_lexer":
+                    st = FRESH
+                elif callee == "parse_statement":
+                    sites.setdefault(m, []).append("line %d: %s" % (c.lineno, st))
+                    if st != FRESH:
+                        msg = "%s calls parse_statement at line %d with lexer flags that were not reset since the last statement parse" % (m, c.lineno)
+                        if msg not in problems:
+                            problems.append(msg)
+                    st = DIRTY
+                elif callee in view.methods and callee not in stack:
+                    st = run_method(callee, st, stack)
+            return st
+
+        def run_block(block, st, m, stack, rets):
+            for s in block:
+                if st is None:
+                    break
+                if isinstance(s, ast.If):
+                    st = do_calls(s.test, st, m, stack)
+                    a = run_block(s.body, st, m, stack, rets)
+                    b = run_block(s.orelse, st, m, stack, rets)
+                    st = join(a, b)
+                elif isinstance(s, (ast.For, ast.While)):
+                    st = do_calls(s.iter if isinstance(s, ast.For) else s.test, st, m, stack)
+                    for _ in range(3):
+                        body_out = run_block(s.body, st, m, stack, rets)
+                        nxt = join(st, body_out)
+                        if nxt == st:
+                            break
+                        st = nxt
+                    st = join(st, run_block(s.orelse, st, m, stack, rets))
+                elif isinstance(s, ast.Try):
+                    body_out = run_block(s.body, st, m, stack, rets)
+                    mid = join(st, body_out) if body_out is not None else DIRTY
+                    outs = [run_block(s.orelse, body_out, m, stack, rets) if s.orelse else body_out]
+                    for h in s.handlers:
+                        outs.append(run_block(h.body, DIRTY if mid is None else join(mid, DIRTY if body_out != st else mid), m, stack, rets))
+                    st = None
+                    for o in outs:
+                        st = join(st, o)
+                    if s.finalbody:
+                        st = run_block(s.finalbody, st if st is not None else DIRTY, m, stack, rets)
+                elif isinstance(s, ast.With):
+                    for it in s.items:
+                        st = do_calls(it.context_expr, st, m, stack)
+                    st = run_block(s.body, st, m, stack, rets)
+                elif isinstance(s, ast.Return):
+                    if s.value is not None:
+                        st = do_calls(s.value, st, m, stack)
+                    rets.append(st)
+                    st = None
+                elif isinstance(s, ast.Raise):
+                    st = None
+                elif isinstance(s, (ast.FunctionDef, ast.ClassDef)):
+                    continue
+                else:
+                    st = do_calls(s, st, m, stack)
+            return st
+
+        def run_method(m, st, stack):
+            key = (m, st)
+            if key in memo:
+                return memo[key]
+            rets = []
+            out_st = run_block(view.methods[m].node.body, st, m, stack | {m}, rets)
+            for r in rets:
+                out_st = join(out_st, r)
+            if out_st is None:
+                out_st = DIRTY
+            memo[key] = out_st
+            return out_st
+        entry = "parse_data" if "parse_data" in view.methods else None
+        if entry is None:
+            problems.append("parse_data not found")
+        else:
+            run_method(entry, DIRTY, frozenset())
+        if not sites:
+            problems.append("no call site of parse_statement found on the path from parse_data")
+        # a statement parse started from anywhere else on the class (not reachable from parse_data) is not covered
+        for m, fref in view.methods.items():
+            if m in sites or m == "parse_statement":
                 continue
-            seen_t.add(tgt)
-            for m, fref in view.methods.items():
-                for block in blocks_of(fref.node):
-                    cs = calls_in(block)
-                    for i, callee in cs:
-                        if callee != tgt:
-                            continue
-                        guarded = any(j <= i and c == "set_default_flags_in_lexer" for j, c in cs)
-                        sites.setdefault(tgt, []).append("%s%s" % (m, "" if guarded else " (no reset before)"))
-                        if not guarded:
-                            # the caller may itself be called only after a reset: follow it one level up
-                            if m == "process_statement" or m.startswith("process_") and m != "process_line":
-                                targets.append(m)
-                            else:
-                                problems.append("%s calls %s without resetting the lexer flags first" % (m, tgt))
-        if "parse_statement" not in sites:
-            problems.append("no call site of parse_statement found")
+            for c in self_calls(fref.node):
+                if attr_path(c.func)[1] == "parse_statement":
+                    problems.append("%s calls parse_statement (line %d) outside the analysed path from parse_data" % (m, c.lineno))
         out.append(ob("reset-precedes-every-statement-parse", not problems, dict(call_sites=sites, offenders=problems),
-                      {view.methods[m].key for m in ("process_line", "parse_data") if m in view.methods}, pid))
+                      {view.methods[m].key for m in ("process_line", "parse_data", "process_statement") if m in view.methods}, pid))
 
     if "no-shared-mutable-skeleton" in clauses:
         # C14 / C15 / C03: a module-level or class-level dict / list / set display is ONE object for the whole process.
